@@ -1026,8 +1026,19 @@ def parse_stmt(toks):
     return toks
 
 
+def check_cp437(loc, text):
+    # string literals and DATA items are stored in code page 437
+    try:
+        text.encode('cp437')
+    except UnicodeEncodeError as e:
+        raise SyntaxError(
+            loc, f'Character not available in code page 437: '
+            f'{text[e.start]!r}')
+
+
 @parse_action(string_literal)
 def parse_str_literal(s, loc, toks):
+    check_cp437(loc, toks[0])
     return StringLiteral(toks[0][1:-1])
 
 
@@ -1553,6 +1564,7 @@ def parse_screen_stmt(toks):
 def parse_data(s, loc, toks):
     # Re-join data items and have them properly parsed again
     s = ' '.join(str(t) for t in toks)
+    check_cp437(loc, s)
     ret = DataStmt(s)
 
     if ret.items is None:
